@@ -59,14 +59,18 @@ func (c *client) Close() error {
 func (c *client) call(f string, req, res any) error {
 	c.waits.Add(1)
 	defer c.waits.Done()
+	verifInvoke(c, f, req, res)
 
 	for attempt := 0; attempt < retriesOnShutdown; attempt++ {
 		if c.rpcClient == nil {
+			verifTok := verifDialBegin()
 			conn, err := net.Dial("unix", c.sockPath)
 			if err != nil {
+				verifDialEnd(verifTok, req, res, nil)
 				return err
 			}
 			c.rpcClient = rpc.NewClient(conn)
+			verifDialEnd(verifTok, req, res, c.rpcClient)
 		}
 
 		err := c.rpcClient.Call(api.ServiceName+"."+f, req, res)
@@ -75,9 +79,11 @@ func (c *client) call(f string, req, res any) error {
 			c.rpcClient = nil
 			continue
 		} else {
+			verifReturn(req, res, err)
 			return err
 		}
 	}
+	verifGiveUp(req, res)
 	return ErrDaemonUnreachable
 }
 
